@@ -14,16 +14,17 @@ pub fn prop() -> Prop {
     Prop {
         id: "C01",
         level: "exploration",
-        rule: "case = GenAir instance (width 1..12, occasionally 64..255; trace length 2^3..2^10; one next-state constraint per column of degree 1..5 with optional periodic factor; exemptions 1..bound with mass on k = degree and k = bound; optional auxiliary segment with running product / sum columns; single / periodic / sequence assertions read off the generated satisfying trace, in a generated listing order; sub-check long_sequences forces a sequence assertion of 64..512 values on traces of 2^7..2^12 rows with its first step spread over the whole stride, so that first_step x constraint-evaluation blowup exceeds the number of values) x one of 12 (field, hasher) instances x generated valid ProofOptions (queries 1..255, blowup min..128, grinding 0..10, extension None/Quadratic/Cubic, folding 2/4/8/16, remainder degree 2^r-1 <= 255 without FRI degree truncation, 3x3 batching methods, partitions 1..16 x hash rate). Oracle: verify(Proof::from_bytes(proof.to_bytes())) = Ok with OptionSet([options]). Non-trivial = the independent checker confirms the trace satisfies the spec and a proof was produced; distinct = hash of (spec, options, instance).",
+        rule: "case = GenAir instance (width 1..12, occasionally 64..255; trace length 2^3..2^10; one next-state constraint per column of degree 1..5 with optional periodic factor; exemptions 1..bound with mass on k = degree and k = bound; optional auxiliary segment with running product / sum columns; single / periodic / sequence assertions read off the generated satisfying trace, in a generated listing order; sub-check long_sequences forces a sequence assertion of 64..512 values on traces of 2^7..2^12 rows with its first step spread over the whole stride, so that first_step x constraint-evaluation blowup exceeds the number of values) x one of 12 (field, hasher) instances x generated valid ProofOptions (queries 1..255, blowup min..128, grinding 0..10, extension None/Quadratic/Cubic, folding 2/4/8/16, remainder degree 2^r-1 <= 255 without FRI degree truncation, 3x3 batching methods, partitions 1..16 x hash rate). Sub-check bundled_examples: the repository's own example AIRs (fib2, fib8, mulfib2, mulfib8, fib_small over f64 with all five hashers, vdf, vdf with exemptions, rescue hash chain, rescue RAPs with an auxiliary segment, merkle path; lamport aggregate in the thorough tier) with generated sizes and generated valid options. Oracle: verify(Proof::from_bytes(proof.to_bytes())) = Ok with OptionSet([options]). Non-trivial = the independent checker confirms the trace satisfies the spec and a proof was produced; distinct = hash of (spec, options, instance).",
         assumptions: vec![
             "only configurations the code documents as acceptable are generated: blowup >= the documented minimum for the declared degrees, queries < LDE size, FRI parameters without degree truncation (counted as excluded)",
             "a prover panic on a generated instance is recorded as prover_declined (C01 speaks about the proof the prover produces); more than 5% of such cases makes the check inconclusive (exit 2)",
+            "rescue_raps and merkle examples draw their witness (seeds, leaf index) from the crate's own RNG: the structure of the case is a function of VERIF_SEED, those witness values are not",
             "release profile: Trace::validate is not run by the prover (its agreement with the independent checker is C29's subject)",
         ],
-        subs: vec![Sub::gen("genair", genair, 400, 6_000, 150_000), Sub::gen("many_queries", many_queries, 400, 32, 600), Sub::gen("long_sequences", long_sequences, 400, 600, 12_000)],
+        subs: vec![Sub::gen("genair", genair, 400, 6_000, 150_000), Sub::gen("many_queries", many_queries, 400, 32, 600), Sub::gen("long_sequences", long_sequences, 400, 600, 12_000), Sub::gen("bundled_examples", bundled_examples, 200, 700, 20_000)],
         required: vec![
             "field:f62", "field:f64", "field:f128", "ext:1", "ext:2", "ext:3", "folding:2", "folding:4", "folding:8", "folding:16", "remainder:0", "remainder:255",
-            "unique_queries_255", "queries_1", "partitions_gt_1", "aux_segment", "periodic_column", "sequence_ge_64", "sequence_first_nonzero", "sequence_offset_ge_values",
+            "unique_queries_255", "queries_1", "partitions_gt_1", "aux_segment", "periodic_column", "sequence_ge_64", "sequence_first_nonzero", "sequence_offset_ge_values", "example:fib2", "example:fib8", "example:mulfib2", "example:mulfib8", "example:fib_small", "example:vdf", "example:vdf_exempt", "example:rescue", "example:rescue_raps", "example:merkle",
             "composition_columns_gt_1", "exemptions_gt_1", "exemptions_eq_degree", "hasher:Rp62_248", "hasher:Rp64_256", "hasher:RpJive64_256", "hasher:Sha3_256<f128>", "hasher:Blake3_192<f62>", "max5%:prover_declined",
         ],
         required_thorough: vec!["wide_trace"],
@@ -143,5 +144,38 @@ where
         VerifyOutcome::Accept => Ok(()),
         VerifyOutcome::Reject(e) => Err(Fail::new(format!("honest-proof-rejected:{}", err_name(&e)), format!("verifier rejected an honest proof: {e} ({ctx}; unique queries {})", unique_queries(&proof)))),
         VerifyOutcome::Panic(pn) => Err(Fail::new(format!("verifier-{}", pn.key()), format!("verifier panicked on an honest proof at {}: {} ({ctx}; unique queries {})", pn.location, pn.message, unique_queries(&proof)))),
+    }
+}
+
+
+// BUNDLED EXAMPLES
+// ================================================================================================
+
+fn bundled_examples(s: &mut Src, rec: &mut Rec) -> CaseResult {
+    let case = match crate::examples::gen_example(s, rec) {
+        Ok(c) => c,
+        Err(pn) => return Err(Fail::new(format!("example-constructor-{}", pn.key()), format!("constructing a bundled example panicked: {} at {}", pn.message, pn.location))),
+    };
+    let ctx = format!("example {} (size {}, trace length {}, hasher {}); options {}", case.name, case.size, case.trace_len, case.hasher, case.opt.describe());
+    rec.set_fp(&(case.name, case.size, case.hasher, format!("{:?}", case.opt)));
+    rec.describe(|| json!({"example": case.name, "size": case.size, "trace_len": case.trace_len, "hasher": case.hasher, "options": case.opt.describe()}));
+    rec.class(&format!("ext:{}", case.opt.ext));
+    rec.class(&format!("folding:{}", case.opt.folding));
+    rec.class_if(case.opt.partitions > 1, "partitions_gt_1");
+    let proof = match catch(|| case.example.prove()) {
+        Ok(p) => p,
+        Err(pn) => return Err(Fail::new(format!("example-prover-{}", pn.key()), format!("the prover of a bundled example panicked on its own satisfying trace: {} at {} ({ctx})", pn.message, pn.location))),
+    };
+    rec.nontrivial();
+    let bytes = proof.to_bytes();
+    let decoded = match catch(|| Proof::from_bytes(&bytes)) {
+        Ok(Ok(p)) => p,
+        Ok(Err(e)) => return Err(Fail::new("honest-proof-does-not-decode", format!("Proof::from_bytes(proof.to_bytes()) failed: {e} ({ctx})"))),
+        Err(pn) => return Err(Fail::new(format!("decode-{}", pn.key()), format!("Proof::from_bytes panicked on an honest proof: {} ({ctx})", pn.message))),
+    };
+    match catch(|| case.example.verify(decoded)) {
+        Ok(Ok(())) => Ok(()),
+        Ok(Err(e)) => Err(Fail::new(format!("honest-proof-rejected:{}", err_name(&e)), format!("verifier rejected the honest proof of a bundled example: {e} ({ctx}; unique queries {})", unique_queries(&proof)))),
+        Err(pn) => Err(Fail::new(format!("verifier-{}", pn.key()), format!("verifier panicked on the honest proof of a bundled example at {}: {} ({ctx})", pn.location, pn.message))),
     }
 }
